@@ -1,9 +1,10 @@
 #!/bin/sh
-# usage: tools/seedtest.sh <patch.diff> <ID> [tier]  -- applies the patch to /repo, runs the check, restores /repo
+# usage: tools/seedtest.sh <seed dir or patch> <ID> [tier]  -- applies the patch to /repo, runs the check, restores /repo
 P="$1"; ID="$2"; TIER="${3:-quick}"
+P=$(realpath "$P"); if [ -d "$P" ]; then if [ -f "$P/patch.head.diff" ]; then P="$P/patch.head.diff"; else P="$P/patch.diff"; fi; fi
 cd /repo && git diff --quiet || { echo "/repo dirty"; exit 3; }
-git -C /repo apply "$P" || git -C /repo apply --3way "$P" || { echo "patch does not apply"; git -C /repo checkout -- .; exit 3; }
+git -C /repo apply "$P" 2>/dev/null || { echo "patch does not apply to HEAD: $P (port it to patch.head.diff)"; git -C /repo checkout -q -- .; exit 3; }
 cd /verif && ./check "$ID" --tier "$TIER" > /tmp/seedtest.$$.out 2>&1; RC=$?
-grep -E "^VIOLATION|^KNOWN-FINDING|^\[C|MACHINERY|^  key=" /tmp/seedtest.$$.out | cut -c1-300; rm -f /tmp/seedtest.$$.out
-git -C /repo checkout -- . ; git -C /repo status --short | head -3
-echo "seedtest rc=$RC"
+grep -E "^VIOLATION|^\[C|MACHINERY|^  key=" /tmp/seedtest.$$.out | cut -c1-260 | head -12; rm -f /tmp/seedtest.$$.out
+git -C /repo checkout -q -- . ; git -C /repo status --short | head -3
+echo "seedtest $P rc=$RC"
